@@ -616,6 +616,18 @@ func (s *genState) class(c ctx) ast.Expression {
 				items = append(items, ClassItem{Lo: '-'})
 			}
 		}
+		if r.Intn(5) == 0 {
+			// ... or right after a complete range, where it cannot start a new one: [xa-c-e] is x, a-c, '-' and e
+			for i, it := range items {
+				if it.IsRange && it.Class == "" {
+					items = append(items[:i+1:i+1], append([]ClassItem{{Lo: '-'}}, items[i+1:]...)...)
+					if r.Intn(2) == 0 && i > 0 && items[0].Class != "" {
+						items = append([]ClassItem{{Lo: 'x'}}, items...)
+					}
+					break
+				}
+			}
+		}
 		if len(items) == 0 && n > 0 {
 			items = []ClassItem{{Lo: 'q'}}
 		}
